@@ -611,4 +611,162 @@ theorem bp_pause_before_exec_trace (env : Env) (n : Nat) (initial m : Machine) (
       ∃ c, r.reads.getLast? = some ⟨c, a⟩ ∧ Resumes c = true :=
   bp_pause_before_exec_from env n true _ m w (fun _ => fresh_newDbg initial bpsRel cmds m)
 
+/-! ### T2: a removed (or never added) breakpoint never pauses -/
+
+/-- The line the debugger prints (minimal mode) when a breakpoint pauses execution. -/
+def bpLine : List Char := "Reached::Breakpoint".toList
+
+theorem bpLine_ne_halt : bpLine ≠ "Reached::Halt".toList := by unfold bpLine; decide
+theorem bpLine_ne_oob : bpLine ≠ "OutOfBounds::ProgramCounter".toList := by unfold bpLine; decide
+theorem bpLine_notin_oob : bpLine ∉ ["OutOfBounds::ProgramCounter".toList] := by
+  intro h; rcases List.mem_cons.mp h with h | h
+  · exact bpLine_ne_oob h
+  · cases h
+
+/-- What the preamble of `next_action` prints: it only adds lines in front, and
+`Reached::Breakpoint` is among them only if the list holds a breakpoint at the PC. -/
+theorem preamble_said (d : Dbg) (m : Machine) :
+    ∃ pre, (preamble d m).errRev = pre ++ d.errRev ∧ (bpLine ∈ pre → (bpGet d.bps m.pc).isSome) := by
+  have key : ∀ (d0 : Dbg) (pre0 : List (List Char)), d0.errRev = pre0 ++ d.errRev → d0.bps = d.bps →
+      bpLine ∉ pre0 →
+      ∃ pre, (checkInterrupts d0 m.pc (sigOf (m.read m.pc))).errRev = pre ++ d.errRev ∧
+        (bpLine ∈ pre → (bpGet d.bps m.pc).isSome) := by
+    intro d0 pre0 he hbps hn
+    unfold checkInterrupts
+    rw [hbps]
+    cases hg : bpGet d.bps m.pc with
+    | some b =>
+      simp only
+      split
+      · exact ⟨"Reached::Breakpoint".toList :: pre0, by simp [say, he], fun _ => rfl⟩
+      · split
+        · exact ⟨"Reached::Halt".toList :: pre0, by simp [say, he], fun _ => rfl⟩
+        · exact ⟨pre0, he, fun _ => rfl⟩
+    | none =>
+      simp only
+      split
+      · refine ⟨"Reached::Halt".toList :: pre0, by simp [say, he], fun h => ?_⟩
+        rcases List.mem_cons.mp h with h | h
+        · exact absurd h bpLine_ne_halt
+        · exact absurd h hn
+      · exact ⟨pre0, he, fun h => absurd h hn⟩
+  unfold preamble
+  cases Run.checkPcBounds m <;> simp only
+  · exact key _ ["OutOfBounds::ProgramCounter".toList] rfl rfl bpLine_notin_oob
+  · exact key _ [] rfl rfl (by simp)
+  · exact key _ ["OutOfBounds::ProgramCounter".toList] rfl rfl bpLine_notin_oob
+
+/-- `preSaid` is exactly what the preamble put in front of the log. -/
+theorem preSaid_spec (env : Env) (d : Dbg) (m : Machine) (w : World) :
+    (preamble d m).errRev = (iterRec env true d m w).preSaid ++ d.errRev := by
+  obtain ⟨pre, h, _⟩ := preamble_said d m
+  simp only [iterRec, if_true]
+  rw [h, newLines_append]
+
+/-- One iteration: `Reached::Breakpoint` is printed by the bounds check / `check_interrupts` of an
+iteration only if the breakpoint list holds a breakpoint at the PC at that moment. -/
+theorem iter_bp_line (env : Env) (att : Bool) (d : Dbg) (m : Machine) (w : World)
+    (h : bpLine ∈ (iterRec env att d m w).preSaid) : (bpGet d.bps m.pc).isSome := by
+  cases att with
+  | false => simp [iterRec] at h
+  | true =>
+    obtain ⟨pre, he, hp⟩ := preamble_said d m
+    simp only [iterRec, if_true] at h
+    rw [he, newLines_append] at h
+    exact hp h
+
+/-- A property of every record of a trace, from a property of every iteration. -/
+theorem runTrace_forall (env : Env) (P : IterRec → Prop)
+    (hP : ∀ att d m w, P (iterRec env att d m w)) :
+    ∀ (n : Nat) (att : Bool) (d : Dbg) (m : Machine) (w : World), ∀ r ∈ runTrace env n att d m w, P r
+  | 0, _, _, _, _ => by intro r hr; simp [runTrace] at hr
+  | n + 1, att, d, m, w => by
+    intro r hr
+    unfold runTrace at hr
+    rcases List.mem_cons.mp hr with rfl | hr
+    · exact hP att d m w
+    · cases hit : iter env att d m w with
+      | cont a1 d1 m1 w1 e => rw [hit] at hr; exact runTrace_forall env P hP n a1 d1 m1 w1 r hr
+      | done a1 d1 m1 w1 => rw [hit] at hr; simp at hr
+      | exit c a1 d1 m1 w1 e => rw [hit] at hr; simp at hr
+      | panic s => rw [hit] at hr; simp at hr
+
+/-- **C11 (T2) — a removed breakpoint never pauses, whole sessions.** In any session, for every
+iteration: if at the start of the iteration the list holds no breakpoint at the PC (never added,
+or removed by `break remove`), the iteration's interrupt check does not print
+`Reached::Breakpoint`.  Equivalently: the line is printed only where `bpGet bps pc` is `some` at
+that moment. -/
+theorem bp_removed_never_pauses_trace (env : Env) (n : Nat) (initial m : Machine) (w : World)
+    (bpsRel : List Word) (cmds : List Command) :
+    ∀ r ∈ runTrace env n true (newDbg initial bpsRel cmds) m w,
+      bpGet r.bpsBefore r.pc = none → bpLine ∉ r.preSaid := by
+  intro r hr hnone hin
+  have := runTrace_forall env (fun r => bpLine ∈ r.preSaid → (bpGet r.bpsBefore r.pc).isSome)
+    (fun att d m w h => iter_bp_line env att d m w h) n true _ m w r hr hin
+  rw [hnone] at this
+  cases this
+
+/-- One iteration with no breakpoint at an executable PC and a running status (`continue`,
+`step into`, `step out`, or `step` that has not come back to its return address): the debugger
+prints nothing before the status loop, reads no command, and the breakpoint list is unchanged. -/
+theorem iter_no_bp_runs_on (env : Env) (d : Dbg) (m : Machine) (w : World)
+    (hb : bpGet d.bps m.pc = none) (hx : (iterRec env true d m w).executable = true)
+    (hs : d.status ≠ .wait) (hso : d.status ≠ .stepOver m.pc) :
+    (iterRec env true d m w).preSaid = [] ∧ (iterRec env true d m w).reads = [] ∧
+    (iterRec env true d m w).bpsAfter = d.bps := by
+  simp only [iterRec, Bool.and_eq_true, beq_iff_eq, bne_iff_ne, ne_eq] at hx
+  obtain ⟨hbounds, hh⟩ := hx
+  have hp : preamble d m = { d with curBp := none } := by
+    unfold preamble
+    rw [hbounds]
+    simp only [checkInterrupts, hb]
+    have : (sigOf (m.read m.pc) == some Sig.halt) = false := by simpa using hh
+    rw [if_neg (by simp [this])]
+  have hpre : (iterRec env true d m w).preSaid = [] := by
+    simp only [iterRec, if_true, hp]
+    exact newLines_append [] d.errRev
+  refine ⟨hpre, ?_, ?_⟩
+  · simp only [iterRec, if_true, nextReads, hp]
+    cases hst : d.status with
+    | wait => exact absurd hst hs
+    | stepOver ret =>
+      rw [show 2 * d.cmds.length + 3 = (2 * d.cmds.length + 2) + 1 from rfl,
+        actionReads_stepOver env _ _ m w _ ret rfl]
+      have : ¬ (m.pc == ret) = true := by
+        intro h; apply hso; rw [hst, eq_of_beq h]
+      rw [if_neg this]
+    | stepInto c => exact actionReads_running env (2 * d.cmds.length + 2) _ m w _ (by simp) (by simp)
+    | cont => exact actionReads_running env (2 * d.cmds.length + 2) _ m w _ (by simp) (by simp)
+    | finish => exact actionReads_running env (2 * d.cmds.length + 2) _ m w _ (by simp) (by simp)
+  · simp only [iterRec, if_true]
+    rw [nextAction_eq, hp]
+    unfold actionLoop
+    cases hst : d.status with
+    | wait => exact absurd hst hs
+    | stepOver ret =>
+      have : ¬ (m.pc == ret) = true := by
+        intro h; apply hso; rw [hst, eq_of_beq h]
+      simp only [if_neg this]
+    | stepInto c => by_cases hc : c.toNat > 0 <;> simp only [hc, if_true, if_false]
+    | cont => rfl
+    | finish =>
+      by_cases hc : (sigOf (m.read m.pc) == some Sig.ret) = true
+      · simp only [hc, if_true]; rfl
+      · simp only [hc]; rfl
+
+/-- **C11 (T2, positive form) — with no breakpoint the run goes on, whole sessions.** In any
+session, an attached iteration that starts at an executable PC (in user space, not HALT) carrying
+no breakpoint, in a running status, prints no interrupt line and reads no command: it does not
+pause. -/
+theorem no_bp_runs_on_trace (env : Env) (n : Nat) (initial m : Machine) (w : World)
+    (bpsRel : List Word) (cmds : List Command) :
+    ∀ r ∈ runTrace env n true (newDbg initial bpsRel cmds) m w, r.attached = true →
+      bpGet r.bpsBefore r.pc = none → r.executable = true → r.status ≠ .wait →
+      r.status ≠ .stepOver r.pc → r.preSaid = [] ∧ r.reads = [] ∧ r.bpsAfter = r.bpsBefore := by
+  refine runTrace_forall env _ ?_ n true _ m w
+  intro att d m w hatt
+  have : att = true := hatt
+  subst this
+  exact fun hb hx hs hso => iter_no_bp_runs_on env d m w hb hx hs hso
+
 end Lace.C11
